@@ -4,6 +4,9 @@
 package main
 
 import (
+	"os"
+	"os/signal"
+	"syscall"
 	"testing"
 
 	"verifsim/harness"
@@ -12,5 +15,10 @@ import (
 var verifProps = map[string]*harness.Prop{}
 
 func TestVerif(t *testing.T) {
+	// newTermMonitor calls signal.Notify: let the runtime set up its signal
+	// goroutine and channels out here, not inside a synctest bubble
+	warm := make(chan os.Signal, 1)
+	signal.Notify(warm, syscall.SIGUSR2)
+	signal.Stop(warm)
 	harness.Main(t, &harness.Env{}, verifProps)
 }
